@@ -289,6 +289,10 @@ EDGES = [
     "int a[0];int*p=a;", "void f(void){static int b[0];}", "void f(void){int b[0][3];int c[3][0];}", "struct z{int a[0];};struct z f(struct z v){return v;}",
     "struct z{int a[0];};void f(void){struct z a,b;a=b;}", "struct z{int a[0];};void f(void){struct z a={};}", "union{int a[0];}u;", "void f(void){int a[0];a[0]=1;}",
     "typedef int Z[0];Z z;void f(Z*p){(*p)[0]=1;}", "void f(void){char c[0]=\"\";}", "void f(int n){int a[n][0];}", "void f(void){struct{}*p;}",
+    # zero fill of automatic objects whose type is aligned to more than the widest store; initialisers for arrays without elements
+    "void f(void){struct{_Alignas(16) char c[40];}s={1};}", "void f(void){struct{long double i[3];char c;}s={.c=1};}", "void f(void){struct{_Alignas(64) int a;int b[20];}s={.b[3]=1};}",
+    "void f(void){struct{_Alignas(32) char c;}a[3]={{1},{2}};}", "void f(void){union{_Alignas(16) char c[20];int i;}u={.i=1};}", "int b[0]={1,2,3};", "struct{int a[0];int b;}s={1};",
+    "void f(void){int b[0]={1};}", "struct{int b;int a[0];}s={1,2};", "int c[0][2]={{1,2}};", "void f(void){struct{int a[0];}s={{1}};}",
     "static int x = 1/0;", "static int x = 1%0;", "static unsigned x = 1u/0u;", "static unsigned long x = 1ul%0ul;",
     "void f(int a){switch(a){case 1/0:;}}", "enum e {A = 1/0};", "int a[1/0];", "struct s {int x:1/0;};",
     "static int x = (-2147483647-1)/-1;", "static int x = (-2147483647-1)%-1;",
